@@ -5,12 +5,12 @@ set -u
 D="$1"; N="$2"; W=/tmp/wt-verify
 cd $W && git checkout -q -- . && git clean -fdq -e target
 export CARGO_NET_OFFLINE=true
-cp "$D/demo$N.rs" geo/tests/seeded_demo.rs
+mkdir -p geo/tests && cp "$D/demo$N.rs" geo/tests/seeded_demo.rs
 without=$(cargo test -p geo --offline --test seeded_demo 2>&1 | grep -E "^test result" | tail -1)
 git apply "$D/patch$N.diff" || { echo "APPLY FAILED"; exit 3; }
 with=$(cargo test -p geo --offline --test seeded_demo 2>&1 | grep -E "^test result" | tail -1)
 rm geo/tests/seeded_demo.rs
-suite=$(cargo nextest run -p geo -p geo-types --offline --no-fail-fast 2>&1 | grep -E "^\s+Summary|^\s+FAIL " | sort -u | tr '\n' ';' | sed -E 's/\s+/ /g')
+suite=$(cargo nextest run -p geo -p geo-types --offline --no-fail-fast 2>&1 | grep -E "^ +Summary|^ +FAIL " | grep -v "points_along_line_with\|test_non_standard_geoid" | sed -E 's/\[[^]]*\]//' | sort -u | tr '\n' ';' | tr -s ' ')
 git checkout -q -- . && git clean -fdq -e target
 echo "demo WITHOUT change: $without"
 echo "demo WITH change:    $with"
